@@ -284,6 +284,18 @@ def forgeries(t):
             r5["error_index"] = 1 if vbs else 0
             r5["varbinds"] = vbs
             yield "report-error-status-%d-%s" % (status, "echo" if vbs else "empty"), t.build(0, r5)
+    # the same for every other PDU type (a plaintext RESPONSE with noSuchName would end a
+    # walk quietly if its error-status were looked at before the security level)
+    for ptype in (ber.PDU_RESPONSE, ber.PDU_GET, ber.PDU_TRAP):
+        for status in (2, 1, 5, 18):
+            for flags, digest in ((0, None), (4, None), (1, b"\x00" * 12), (1, orig_digest)):
+                for vbs in ([], [(o, ("null", None)) for o, _ in t.req_pdu["varbinds"]]):
+                    p6 = t.altered_pdu(ptype)
+                    p6["error_status"] = status
+                    p6["error_index"] = 1 if vbs else 0
+                    p6["varbinds"] = vbs
+                    kw = {"digest": digest} if digest is not None else {}
+                    yield "pdu-0x%02x-error-status-%d-flags%d-%s%s" % (ptype, status, flags, "echo" if vbs else "empty", "-digest-kept" if digest == orig_digest else ""), t.build(flags, p6, **kw)
     # engine timing rewritten (unauthenticated fields are covered by the digest)
     yield "boots-time-rewritten-digest-kept", t.build(t.msg["flags"], None if "encrypted" in t.msg else alt, encrypted=t.msg.get("encrypted"), digest=orig_digest, priv=t.msg["usm"]["priv"], usm_over={"boots": 9, "time": 99})
 
@@ -313,6 +325,11 @@ def attacks(t):
                 return agent_b.handle(req)  # relayed to the real engine B
             # the client still addresses engine A: pull the trigger
             state["triggered"] = True
+            if trigger.startswith("authentic-niw"):
+                # engine A itself (nothing forged): it has rebooted and its boots counter
+                # is latched at the maximum / its engine time stands at the maximum, so
+                # it answers with an AUTHENTIC notInTimeWindow report carrying 2^31-1
+                return latched[trigger].handle(req)
             if trigger == "replay-b":
                 raw = t.build(1, t.altered_pdu(), engine=t.engine_b, digest=b"\x00" * 12)
                 return t.sign(raw, t.user.auth[0], t.user.auth_key(t.engine_b))
@@ -322,7 +339,13 @@ def attacks(t):
 
         return responder
 
-    for trigger in ("not_in_window", "unknown_engine", "replay-b"):
+    latched = {
+        "authentic-niw-boots-max": agent_mod.Agent(DB, engine_id=t.engine, users=[t.user], clock=t.w.agent.clock, boots=2**31 - 1),
+        "authentic-niw-time-max": agent_mod.Agent(DB, engine_id=t.engine, users=[t.user], clock=t.w.agent.clock, boots=t.w.agent.boots + 1),
+    }
+    a2 = latched["authentic-niw-time-max"]
+    a2.boot_epoch = (a2.clock.now if a2.clock is not None else 0.0) - (2**31 - 1)
+    for trigger in ("not_in_window", "unknown_engine", "replay-b", "authentic-niw-boots-max", "authentic-niw-time-max"):
         yield "spoofed-rediscovery-after-" + trigger, make(trigger)
 
 
